@@ -178,33 +178,18 @@ def check_clean(ck, mod, label, rule="R-C20-CLEAN"):
         ck.ob(bool(c.get("volatile")), rule, "tinyjambu_clean", "plain-memset[%s]" % label, "volatile mem intrinsic",
               "plain (elidable) memset/memcpy used for wiping", where=relpath(c.where))
     for s in stores:
-        ck.ob(bool(s.get("volatile")) and s.get("size") == 1 and s.ops[0][0] == "c" and const_val(s.ops[0]) == 0,
-              rule, "tinyjambu_clean", "volatile-zero-store[%s]#%d" % (label, s.id), "store is a volatile i8 0",
-              "store in the fallback wipe loop is not a volatile byte store of 0", where=relpath(s.where))
+        ck.ob(bool(s.get("volatile")) and s.ops[0][0] in ("c", "n", "z") and (s.ops[0][0] != "c" or const_val(s.ops[0]) == 0),
+              rule, "tinyjambu_clean", "volatile-zero-store[%s]#%d" % (label, s.id), "store is a volatile store of 0 (%d byte(s))" % s.get("size"),
+              "store in the fallback wipe is not a volatile store of 0", where=relpath(s.where))
     if mod.form == "N0":
-        if len(f.loops) != 1:
-            raise Broken("volatile fallback of tinyjambu_clean is not a single loop (loops=%d)" % len(f.loops))
-        L = f.loops[0]
-        btc = L["btc"]
-        # trip count == size
-        okb = btc.get("k") == "u" and tuple(btc["v"]) == ("a", 1)
-        if not okb and btc.get("k") == "zext":
-            okb = btc["op"].get("k") == "u" and tuple(btc["op"]["v"]) == ("a", 1)
-        ck.ob(okb, rule, "tinyjambu_clean", "trip-count[%s]" % label, "loop body executes exactly `size` times (SCEV back-edge count = size)",
-              "loop trip count is %s, not size: the wipe covers a different number of bytes" % L["btc_text"], where=where)
-        inloop = [s for s in stores if s.b in L["blocks"]]
-        ck.ob(len(inloop) == 1 and len(stores) == 1, rule, "tinyjambu_clean", "one-store[%s]" % label, "exactly one store per iteration",
-              "%d stores in loop / %d in function" % (len(inloop), len(stores)), where=where)
-        for s in inloop:
-            P = f.inst(s.ops[1])
-            sc = P.get("scev") if P is not None else None
-            okp = bool(sc) and sc.get("k") == "rec" and sc["ops"][0].get("k") == "u" and tuple(sc["ops"][0]["v"]) == ("a", 0) \
-                and sc["ops"][1].get("k") == "c" and sc["ops"][1]["v"] == "1"
-            ck.ob(okp, rule, "tinyjambu_clean", "store-addr[%s]" % label, "store address is {buf,+,1}: bytes buf[0..size) in order",
-                  "store address recurrence is %s, not {buf,+,1}" % (sc,), where=relpath(s.where))
-            # executes every iteration: store block dominates the latch
-            ck.ob(all(f.dominates_block(s.b, l) for l in L["latches"]), rule, "tinyjambu_clean", "store-uncond[%s]" % label,
-                  "the store executes in every iteration", "the store is conditional inside the loop", where=relpath(s.where))
+        # exact coverage for every size and alignment, whatever the loop structure (D-COV)
+        from .. import cov
+        n, bad, used = cov.coverage(f, 0, 1)
+        ck.ob(bad is None, rule, "tinyjambu_clean", "coverage[%s]" % label,
+              "the volatile stores cover exactly bytes [0, size) in all %d (alignment, size) classes (sizes 0..63 individually, residues mod 8 beyond; trip counts from ScalarEvolution)" % n,
+              "for %s: %s - the wipe clears a different set of bytes than requested" % (bad[0] if bad else "", bad[1] if bad else ""), where=where)
+        ck.ob(set(s.id for s in stores) <= used or not stores, rule, "tinyjambu_clean", "all-stores-on-buffer[%s]" % label, "every store of the function writes the buffer",
+              "a store writes something other than the buffer", where=where)
     return "volatile"
 
 
@@ -233,8 +218,8 @@ def gcc_reloc(ck, build):
 def run(ck, build):
     ck.rule("R-C20-FREE", "hash/hmac/hkdf/prng free: on every path with a non-null argument a wipe primitive (directly or via a sibling free) is called on the "
             "parameter itself; the union of wiped ranges equals [0, sizeof(public state type)) from DWARF")
-    ck.rule("R-C20-CLEAN", "tinyjambu_clean: host config forwards (buf,size) unchanged to explicit_bzero on every path; volatile fallback is one loop whose SCEV "
-            "trip count is size with one unconditional volatile i8 0 store at {buf,+,1}")
+    ck.rule("R-C20-CLEAN", "tinyjambu_clean: host config forwards (buf,size) unchanged to explicit_bzero on every path; volatile fallback: every store is a volatile store of 0 and the "
+            "residue-affine coverage analysis (D-COV) shows the stores tile exactly [0,size) for every size and alignment class")
     ck.rule("R-C20-SURVIVE", "the same facts hold in the -O3 IR (wipe calls not elided; fallback stores all volatile, no plain memset)")
     ck.not_decided += ["memset_s / SecureZeroMemory variants of the primitive (not buildable on this image)",
                        "gcc beyond the relocation cross-check; wiping of temporaries other than the state object (not part of the statement)"]
@@ -264,8 +249,19 @@ def run(ck, build):
     check_clean(sub, fx, "fixture")
     got = {(v["function"], v["construct"].split("[")[0]) for v in sub.violations}
     for want in [("tinyjambu_hash_free", "wipe-range"), ("tinyjambu_hmac_free", "must-wipe"), ("tinyjambu_prng_free", "wipe-range"),
-                 ("tinyjambu_hkdf_free", "must-wipe"), ("tinyjambu_clean", "trip-count")]:
+                 ("tinyjambu_hkdf_free", "must-wipe"), ("tinyjambu_clean", "coverage")]:
         ck.control("c20_bad.c:%s:%s" % want, want in got, "got %s" % sorted(got))
+    # negative control: a correct word-at-a-time fallback must be proven
+    nx = Module(build.fixture_facts(os.path.join(os.path.dirname(os.path.dirname(os.path.dirname(__file__))), "fixtures", "neutral_wordwise.c")))
+    sub2 = type(ck)("C20-neutral")
+    try:
+        check_clean(sub2, nx, "neutral")
+        bad2 = [v["construct"] for v in sub2.violations]
+    except Broken as e:
+        bad2 = ["BROKEN: %s" % e]
+    if bad2:
+        raise Broken("negative control neutral_wordwise.c (correct word-wise clean) is not proven: %s" % bad2[:3])
+    ck.controls.append({"control": "neutral_wordwise.c (must be proven)", "fired": False, "detail": "correct head/words/tail clean: exact coverage proven"})
     if ck.tier == "thorough":
         gcc_reloc(ck, build)
     ck.coverage_extra.update({"free_functions": FREE_FUNCS, "clean_shapes": {"H": shape, "Z-volatile": zshape}})
